@@ -204,3 +204,361 @@ Section Probe.
     rewrite Nat.mod_add by lia. apply Nat.mod_small. exact Hi.
   Qed.
 End Probe.
+
+(* ---------------------------------------------------------------------------------------- *)
+(* bytes and first_index                                                                      *)
+(* ---------------------------------------------------------------------------------------- *)
+Lemma is_full_bit b : is_full b = negb (Z.testbit b 7).
+Proof.
+  unfold is_full, tag_is_full. destruct (Z.testbit b 7) eqn:E; cbn [negb].
+  - destruct (Z.eqb_spec (Z.land b 128) 0) as [E0|]; [|reflexivity]. exfalso.
+    assert (H : Z.testbit (Z.land b 128) 7 = true) by (rewrite Z.land_spec, E; reflexivity).
+    rewrite E0 in H. discriminate H.
+  - apply Z.eqb_eq. apply Z.bits_inj'. intros n Hn. rewrite Z.land_spec, Z.bits_0.
+    change 128%Z with (2 ^ 7)%Z. rewrite Z.pow2_bits_eqb by lia.
+    destruct (Z.eqb_spec 7 n) as [<-|]; [rewrite E; reflexivity|apply andb_false_r].
+Qed.
+
+Lemma lxor1_full x t : (0 <= t < 128)%Z -> Z.lxor x t = 1%Z -> is_full x = true.
+Proof.
+  intros Ht E. rewrite is_full_bit.
+  assert (H : Z.testbit (Z.lxor x t) 7 = false) by (rewrite E; reflexivity).
+  rewrite Z.lxor_spec in H. pose proof (is_full_small t Ht) as Hf. rewrite is_full_bit in Hf.
+  destruct (Z.testbit x 7), (Z.testbit t 7); cbn in *; congruence.
+Qed.
+
+Lemma tag_full_range hash : (0 <= tag_full hash < 128)%Z.
+Proof.
+  unfold tag_full. cbv zeta.
+  match goal with |- context [Z.land ?x 127] => set (y := x) end.
+  change 127%Z with (2 ^ 7 - 1)%Z. rewrite land_ones_mod by lia.
+  pose proof (Z.mod_pos_bound y (2 ^ 7) ltac:(lia)) as Hm. change (2 ^ 7)%Z with 128%Z in *.
+  rewrite wrap_small; [lia|]. change (2 ^ 8)%Z with 256%Z. lia.
+Qed.
+
+Lemma first_from_Some p g : forall from i, first_from p from g = Some i ->
+  from <= i /\ i - from < length g /\ p (nth (i - from) g 0%Z) = true.
+Proof.
+  induction g as [|b r IH]; intros from i H; [discriminate|].
+  cbn [first_from] in H. destruct (p b) eqn:E.
+  - injection H as <-. rewrite Nat.sub_diag. cbn. repeat split; try lia. exact E.
+  - destruct (IH _ _ H) as (H1 & H2 & H3).
+    replace (i - from) with (S (i - S from)) by lia. cbn [length nth]. repeat split; try lia. exact H3.
+Qed.
+
+Lemma first_from_le p g : forall from j, j < length g -> p (nth j g 0%Z) = true ->
+  exists i, first_from p from g = Some i /\ i <= from + j.
+Proof.
+  induction g as [|b r IH]; intros from j Hj Hp; [cbn in Hj; lia|].
+  cbn [first_from]. destruct (p b) eqn:E.
+  - exists from. split; [reflexivity|lia].
+  - destruct j as [|j]; [cbn in Hp; congruence|].
+    cbn in Hj, Hp. destruct (IH (S from) j ltac:(lia) Hp) as (i & Hi & Hle).
+    exists i. split; [exact Hi|lia].
+Qed.
+
+Lemma first_index_Some p g i : first_index p g = Some i ->
+  i < length g /\ p (nth i g 0%Z) = true.
+Proof.
+  intros H. destruct (first_from_Some p g 0 i H) as (_ & H2 & H3).
+  rewrite Nat.sub_0_r in *. split; assumption.
+Qed.
+
+Lemma first_index_le p g j : j < length g -> p (nth j g 0%Z) = true ->
+  exists i, first_index p g = Some i /\ i <= j.
+Proof. intros Hj Hp. exact (first_from_le p g 0 j Hj Hp). Qed.
+
+Lemma existsb_empty_special g : existsb is_empty g = true ->
+  exists j, j < length g /\ is_special (nth j g 0%Z) = true.
+Proof.
+  intros H. apply existsb_exists in H as (x & Hin & Hx).
+  destruct (In_nth g x 0%Z Hin) as (j & Hj & Ej). exists j. split; [exact Hj|].
+  rewrite Ej. apply is_empty_special. exact Hx.
+Qed.
+
+(* ---------------------------------------------------------------------------------------- *)
+(* P3: termination of the probe loops                                                         *)
+(* ---------------------------------------------------------------------------------------- *)
+Section Termination.
+  Variable B : backend.
+  Variable T : Type.
+  Hypothesis HW : WidthOK B.
+  Hypothesis HB : BackendSpec B.
+  Local Notation GW := (bk_width B).
+  Variable t : table T.
+  Hypothesis HS : Shape B T t.
+  Hypothesis HM : Mirror B T t.
+  Hypothesis HC : Count T t.
+  Variable hash : Z.
+
+  Local Notation p0 := (n_probe_start (mask t) hash).
+  Local Notation PS j := (pseq B (mask t) p0 j).
+
+  Let HMask : MaskOK (mask t) := Shape_MaskOK B T t HS.
+
+  Lemma PS_lt j : fst (PS j) < nb T t.
+  Proof. exact (ppos_lt B T t hash j HS). Qed.
+
+  (* the group probed at step j contains an EMPTY byte *)
+  Definition HasEmpty (j : nat) : Prop :=
+    exists g, load B T t (fst (PS j)) = Ok g /\ existsb is_empty g = true.
+
+  (* within the fuel, the probe sequence reaches a group that contains an EMPTY byte *)
+  Lemma reach_empty : exists j, j < probe_fuel B T t /\ HasEmpty j.
+  Proof.
+    destruct (exists_empty B T t HS HC) as (i & Hi & Ei).
+    destruct (Nat.le_gt_cases GW (nb T t)) as [Hbig|Hsmall].
+    - destruct (coverage_offset B T HW t hash i HS Hbig Hi) as (j & m & Hj & Hm & E).
+      exists j. split; [unfold probe_fuel; fold (nb T t); lia|].
+      destruct (load_view B T t _ HS HM (PS_lt j)) as (g & Hg & Hlen & Hok & Hv & _).
+      exists g. split; [exact Hg|]. apply existsb_exists. exists (nth m g 0%Z).
+      split; [apply nth_In; lia|]. rewrite Hv by assumption.
+      unfold ppos in E. rewrite E, Ei. reflexivity.
+    - exists 0. split; [unfold probe_fuel; lia|].
+      pose proof (PS_lt 0) as Hp.
+      destruct (load_view B T t _ HS HM Hp) as (g & Hg & Hlen & Hok & _ & Hv).
+      exists g. split; [exact Hg|]. apply existsb_exists.
+      set (m := nb T t - fst (PS 0)). exists (nth m g 0%Z).
+      split; [apply nth_In; lia|]. rewrite (Hv Hsmall m ltac:(lia)).
+      destruct (Nat.ltb_spec (fst (PS 0) + m) (nb T t)); [lia|].
+      destruct (Nat.ltb_spec (fst (PS 0) + m) GW); [reflexivity|lia].
+  Qed.
+
+  Lemma HasEmpty_load j g : HasEmpty j -> load B T t (fst (PS j)) = Ok g -> existsb is_empty g = true.
+  Proof. intros (g' & Hg' & He) Hg. rewrite Hg in Hg'. injection Hg' as <-. exact He. Qed.
+
+  Lemma load_PS j : exists g, load B T t (fst (PS j)) = Ok g /\ group_ok GW g.
+  Proof.
+    destruct (load_view B T t _ HS HM (PS_lt j)) as (g & Hg & _ & Hok & _).
+    exists g. split; assumption.
+  Qed.
+
+  (* ---- scan_matches ---- *)
+  Section Eq.
+    Variable eq : nat -> res bool.
+    (* the callback is only ever asked about FULL buckets; there it must answer *)
+    Hypothesis Heq : forall i, i < nb T t -> is_full (byte T t i) = true -> exists b, eq i = Ok b.
+
+    Lemma scan_matches_ok pos bits :
+      (forall b, In b bits -> exists r, eq (n_land (pos + b) (mask t)) = Ok r) ->
+      exists r, scan_matches T t eq pos bits = Ok r /\
+                forall i, r = Some i -> i < nb T t /\ eq i = Ok true.
+    Proof.
+      induction bits as [|b r IH]; intros H.
+      - exists None. split; [reflexivity|discriminate].
+      - cbn [scan_matches]. destruct (H b (or_introl eq_refl)) as (e & He). rewrite He. cbn [bind].
+        destruct e.
+        + eexists. split; [reflexivity|]. intros i Ei. injection Ei as <-.
+          split; [apply n_land_lt; exact HMask|exact He].
+        + apply IH. intros b' Hb'. apply H. right. exact Hb'.
+    Qed.
+
+    Lemma match_tag_eq_ok pos g tag : pos < nb T t -> load B T t pos = Ok g -> (0 <= tag < 128)%Z ->
+      forall b, In b (g_match_tag B g tag) -> exists r, eq (n_land (pos + b) (mask t)) = Ok r.
+    Proof.
+      intros Hpos Hg Htag b Hb.
+      pose proof (load_group_ok B T t pos g HS ltac:(lia) Hg) as Hok.
+      pose proof (bs_match_tag_bound B HB g tag b Hok Htag Hb) as Hlt.
+      assert (Hfull : is_full (nth b g 0%Z) = true).
+      { destruct (bs_match_tag_sound B HB g tag b Hok Htag Hb) as [E | [E _]].
+        - rewrite E. apply is_full_small. exact Htag.
+        - apply (lxor1_full _ tag); assumption. }
+      rewrite n_land_mod by exact HMask. fold (buckets T t). fold (nb T t).
+      apply Heq; [apply Nat.mod_upper_bound; lia|].
+      destruct (view_masked B T HW t pos g HS HM Hpos Hg b Hlt) as [E | (_ & _ & E)].
+      - rewrite <- E. exact Hfull.
+      - rewrite E in Hfull. discriminate Hfull.
+    Qed.
+
+    Lemma scan_group_ok pos g tag : pos < nb T t -> load B T t pos = Ok g -> (0 <= tag < 128)%Z ->
+      exists r, scan_matches T t eq pos (g_match_tag B g tag) = Ok r /\
+                forall i, r = Some i -> i < nb T t /\ eq i = Ok true.
+    Proof. intros Hpos Hg Htag. apply scan_matches_ok. apply (match_tag_eq_ok pos g tag); assumption. Qed.
+
+    (* ---- find_inner ---- *)
+    Lemma find_inner_loop_ok tag : (0 <= tag < 128)%Z -> forall n j,
+      (exists j', j <= j' < j + n /\ HasEmpty j') ->
+      exists r, find_inner_loop B T n t tag eq (fst (PS j)) (snd (PS j)) = Ok r /\
+                forall i, r = Some i -> i < nb T t /\ eq i = Ok true.
+    Proof.
+      intros Htag. induction n as [|n IH]; intros j (j' & Hj' & He); [lia|].
+      cbn [find_inner_loop].
+      destruct (load_PS j) as (g & Hg & Hok). rewrite Hg. cbn [bind].
+      destruct (scan_group_ok _ g tag (PS_lt j) Hg Htag) as (r & Hr & Hspec). rewrite Hr. cbn [bind].
+      destruct r as [i|].
+      - eexists. split; [reflexivity|]. exact Hspec.
+      - rewrite (bs_any_empty B HB g Hok).
+        destruct (existsb is_empty g) eqn:Ee.
+        + eexists. split; [reflexivity|]. discriminate.
+        + rewrite <- pseq_S. destruct (PS (S j)) as [p' s'] eqn:EPS.
+          specialize (IH (S j)). rewrite EPS in IH. cbn [fst snd] in IH. apply IH.
+          exists j'. split; [|exact He].
+          destruct (Nat.eq_dec j' j) as [->|]; [|lia].
+          rewrite (HasEmpty_load j g He Hg) in Ee. discriminate Ee.
+    Qed.
+
+    (* TERMINATION of find_inner *)
+    Theorem find_inner_terminates :
+      exists r, find_inner B T t hash eq = Ok r /\
+                forall i, r = Some i -> i < nb T t /\ eq i = Ok true.
+    Proof.
+      unfold find_inner. destruct reach_empty as (j & Hj & He).
+      apply (find_inner_loop_ok (tag_full hash) (tag_full_range hash) (probe_fuel B T t) 0).
+      exists j. split; [lia|exact He].
+    Qed.
+
+    Corollary find_inner_fuel : find_inner B T t hash eq <> Fail OutOfFuel.
+    Proof. destruct find_inner_terminates as (r & E & _). rewrite E. discriminate. Qed.
+  End Eq.
+
+  (* ---- insert slots ---- *)
+  Lemma ctrl_at_ok i : i < nb T t -> ctrl_at T t i = Ok (byte T t i).
+  Proof.
+    intros Hi. unfold ctrl_at, byte. pose proof HS as (_ & Hl & _).
+    rewrite (nth_error_nth' (ctrl t) POISON) by lia. reflexivity.
+  Qed.
+
+  (* a candidate insert slot: a real bucket that is special unless the table is smaller than a group *)
+  Definition SlotCand (s : nat) : Prop :=
+    s < nb T t /\ (is_full (byte T t s) = true -> nb T t < GW).
+
+  Lemma fix_insert_slot_ok s : SlotCand s ->
+    exists s', fix_insert_slot B T t s = Ok s' /\ s' < nb T t /\ is_special (byte T t s') = true.
+  Proof.
+    intros (Hs & Hfull). unfold fix_insert_slot, is_bucket_full.
+    rewrite ctrl_at_ok by exact Hs. cbn [bind].
+    destruct (is_full (byte T t s)) eqn:F.
+    - specialize (Hfull eq_refl).
+      destruct (load_aligned_0_view B T HW t HS HM) as (g0 & Hg0 & Hok & Hreal & _).
+      rewrite Hg0. cbn [bind]. rewrite (bs_lowest_eod B HB g0 Hok).
+      destruct (exists_empty B T t HS HC) as (i0 & Hi0 & Ei0).
+      assert (Hsp : is_special (nth i0 g0 0%Z) = true).
+      { rewrite Hreal by lia. rewrite Ei0. reflexivity. }
+      destruct (first_index_le is_special g0 i0 ltac:(destruct Hok as [-> _]; lia) Hsp) as (i & Ei & Hle).
+      rewrite Ei. exists i. split; [reflexivity|]. split; [lia|].
+      destruct (first_index_Some _ _ _ Ei) as (_ & Hspi). rewrite Hreal in Hspi by lia. exact Hspi.
+    - exists s. split; [reflexivity|]. split; [exact Hs|]. rewrite is_special_negb_full, F. reflexivity.
+  Qed.
+
+  Lemma in_group_cand pos g s : pos < nb T t -> load B T t pos = Ok g ->
+    find_insert_slot_in_group B T t g pos = Some s -> SlotCand s.
+  Proof.
+    intros Hpos Hg H. unfold find_insert_slot_in_group in H.
+    pose proof (load_group_ok B T t pos g HS ltac:(lia) Hg) as Hok.
+    rewrite (bs_lowest_eod B HB g Hok) in H.
+    destruct (first_index is_special g) as [bit|] eqn:Eb; [|discriminate]. injection H as <-.
+    destruct (first_index_Some _ _ _ Eb) as (Hlt & Hsp). destruct Hok as [Hlen _]. rewrite Hlen in Hlt.
+    rewrite n_land_mod by exact HMask. fold (buckets T t). fold (nb T t). split.
+    - apply Nat.mod_upper_bound. lia.
+    - intros Hfull.
+      destruct (view_masked B T HW t pos g HS HM Hpos Hg bit Hlt) as [E | (Hsm & _ & _)]; [|exact Hsm].
+      rewrite <- E in Hfull. rewrite is_special_negb_full, Hfull in Hsp. discriminate Hsp.
+  Qed.
+
+  Lemma in_group_some pos g : pos < nb T t -> load B T t pos = Ok g -> existsb is_empty g = true ->
+    exists s, find_insert_slot_in_group B T t g pos = Some s.
+  Proof.
+    intros Hpos Hg He. unfold find_insert_slot_in_group.
+    pose proof (load_group_ok B T t pos g HS ltac:(lia) Hg) as Hok.
+    rewrite (bs_lowest_eod B HB g Hok).
+    destruct (existsb_empty_special g He) as (j & Hj & Hsp).
+    destruct (first_index_le is_special g j Hj Hsp) as (i & Ei & _). rewrite Ei. eexists. reflexivity.
+  Qed.
+
+  Lemma find_insert_slot_loop_ok : forall n j,
+    (exists j', j <= j' < j + n /\ HasEmpty j') ->
+    exists i, find_insert_slot_loop B T n t (fst (PS j)) (snd (PS j)) = Ok i /\
+              i < nb T t /\ is_special (byte T t i) = true.
+  Proof.
+    induction n as [|n IH]; intros j (j' & Hj' & He); [lia|].
+    cbn [find_insert_slot_loop].
+    destruct (load_PS j) as (g & Hg & Hok). rewrite Hg. cbn [bind].
+    destruct (find_insert_slot_in_group B T t g (fst (PS j))) as [s|] eqn:Es.
+    - apply fix_insert_slot_ok. apply (in_group_cand _ g s (PS_lt j) Hg Es).
+    - rewrite <- pseq_S. destruct (PS (S j)) as [p' s'] eqn:EPS.
+      specialize (IH (S j)). rewrite EPS in IH. cbn [fst snd] in IH. apply IH.
+      exists j'. split; [|exact He].
+      destruct (Nat.eq_dec j' j) as [->|]; [|lia].
+      destruct (in_group_some _ g (PS_lt j) Hg (HasEmpty_load j g He Hg)) as (s & Es').
+      rewrite Es' in Es. discriminate Es.
+  Qed.
+
+  (* TERMINATION of find_insert_slot: it returns a real bucket holding EMPTY or DELETED *)
+  Theorem find_insert_slot_terminates :
+    exists i, find_insert_slot B T t hash = Ok i /\ i < nb T t /\ is_special (byte T t i) = true.
+  Proof.
+    unfold find_insert_slot. destruct reach_empty as (j & Hj & He).
+    apply (find_insert_slot_loop_ok (probe_fuel B T t) 0). exists j. split; [lia|exact He].
+  Qed.
+
+  Section Eq2.
+    Variable eq : nat -> res bool.
+    Hypothesis Heq : forall i, i < nb T t -> is_full (byte T t i) = true -> exists b, eq i = Ok b.
+
+    Definition FoundOrSlot (r : nat + nat) : Prop :=
+      match r with
+      | inl i => i < nb T t /\ eq i = Ok true
+      | inr s => s < nb T t /\ is_special (byte T t s) = true
+      end.
+
+    Lemma find_or_insert_loop_ok tag : (0 <= tag < 128)%Z -> forall n j ins,
+      (forall s, ins = Some s -> SlotCand s) ->
+      (exists j', j <= j' < j + n /\ HasEmpty j') ->
+      exists r, find_or_insert_loop B T n t tag eq ins (fst (PS j)) (snd (PS j)) = Ok r /\ FoundOrSlot r.
+    Proof.
+      intros Htag. induction n as [|n IH]; intros j ins Hins (j' & Hj' & He); [lia|].
+      cbn [find_or_insert_loop].
+      destruct (load_PS j) as (g & Hg & Hok). rewrite Hg. cbn [bind].
+      destruct (scan_group_ok eq Heq _ g tag (PS_lt j) Hg Htag) as (r & Hr & Hspec). rewrite Hr. cbn [bind].
+      destruct r as [i|].
+      - eexists. split; [reflexivity|]. exact (Hspec i eq_refl).
+      - set (ins' := match ins with Some s => Some s | None => find_insert_slot_in_group B T t g (fst (PS j)) end).
+        assert (Hins' : forall s, ins' = Some s -> SlotCand s).
+        { intros s Es. unfold ins' in Es. destruct ins as [s0|].
+          - apply Hins. exact Es.
+          - apply (in_group_cand _ g s (PS_lt j) Hg Es). }
+        rewrite (bs_any_empty B HB g Hok).
+        destruct (existsb is_empty g) eqn:Ee.
+        + assert (Hsome : exists s, ins' = Some s).
+          { unfold ins'. destruct ins as [s0|]; [eexists; reflexivity|].
+            apply (in_group_some _ g (PS_lt j) Hg Ee). }
+          destruct Hsome as (s & Es). rewrite Es.
+          destruct (fix_insert_slot_ok s (Hins' s Es)) as (s' & Hs' & Hlt & Hsp).
+          rewrite Hs'. cbn [bind]. eexists. split; [reflexivity|]. split; assumption.
+        + rewrite <- pseq_S. destruct (PS (S j)) as [p' s'] eqn:EPS.
+          specialize (IH (S j) ins'). rewrite EPS in IH. cbn [fst snd] in IH. apply IH; [exact Hins'|].
+          exists j'. split; [|exact He].
+          destruct (Nat.eq_dec j' j) as [->|]; [|lia].
+          rewrite (HasEmpty_load j g He Hg) in Ee. discriminate Ee.
+    Qed.
+
+    (* TERMINATION of find_or_find_insert_slot_inner *)
+    Theorem find_or_find_insert_slot_inner_terminates :
+      exists r, find_or_find_insert_slot_inner B T t hash eq = Ok r /\ FoundOrSlot r.
+    Proof.
+      unfold find_or_find_insert_slot_inner. destruct reach_empty as (j & Hj & He).
+      apply (find_or_insert_loop_ok (tag_full hash) (tag_full_range hash) (probe_fuel B T t) 0 None).
+      - discriminate.
+      - exists j. split; [lia|exact He].
+    Qed.
+  End Eq2.
+End Termination.
+
+(* the form with a total callback *)
+Corollary find_inner_total B T (HW : WidthOK B) (HB : BackendSpec B) (t : table T) hash eq :
+  Shape B T t -> Mirror B T t -> Count T t -> (forall i, exists b, eq i = Ok b) ->
+  exists r, find_inner B T t hash eq = Ok r.
+Proof.
+  intros HS HM HC Heq.
+  destruct (find_inner_terminates B T HW HB t HS HM HC hash eq (fun i _ _ => Heq i)) as (r & E & _).
+  exists r. exact E.
+Qed.
+
+Print Assumptions exists_empty.
+Print Assumptions pseq_closed.
+Print Assumptions coverage.
+Print Assumptions find_inner_terminates.
+Print Assumptions find_inner_fuel.
+Print Assumptions find_inner_total.
+Print Assumptions find_insert_slot_terminates.
+Print Assumptions find_or_find_insert_slot_inner_terminates.
